@@ -143,6 +143,7 @@ def aggregate_order(chk, rid):
       chk.ob(rid, True, None, 'aggregate %s (%s) may depend on arrival order' % (sqlname, cname),
              ORDER_EXEMPT[sqlname], fi=fin, nontrivial=False)
       continue
+    elements_unchanged(chk, rid, sqlname, ci, step, fin)
     if kind == 'set':
       n, bad = sanitised_uses(m, fin)
       chk.ob(rid, n > 0 and not bad, None,
@@ -498,6 +499,7 @@ def run(chk):
            for x in walk_local(fi.node))
   chk.ob('C07-R2', ok, None, 'GROUP BY keys are sorted', 'GROUP BY follows set order', fi=fi)
   conjunct_translation_is_local(chk, 'C07-R2')
+  reserved_prefix(chk, 'C07-R2')
   # UNION ALL keeps program order of rules: PredicateSql iterates GetPredicateRules
   fi = repo.func('universe.LogicaProgram.GetPredicateRules')
   ok = any(isinstance(x, ast.For) and dotted(x.iter) == 'self.rules' for x in walk_local(fi.node))
@@ -537,3 +539,79 @@ def conjunct_translation_is_local(chk, rid):
            node=bad[0] if bad else None)
   if n < 3:
     raise AnalysisError('conjunct handlers of rule_translate not recognised (%d)' % n)
+
+
+def elements_unchanged(chk, rid, sqlname, ci, step, fin):
+  """An aggregate that only collects its argument (step adds / appends the
+  parameter itself to self.result) returns those very values: on the way to
+  json.dumps they may be put in order or de-duplicated, never converted one by
+  one (a per-element conversion such as decoding strings as JSON changes what
+  `Set` / `List` of strings contain)."""
+  params = [p_ for p_ in step.params if p_ != 'self']
+  if len(params) != 1:
+    return
+  effects = [c for c in walk_local(step.node) if isinstance(c, ast.Call) and
+             receiver(c) == 'self.result']
+  if not effects or not all(call_tail(c) in ('add', 'append') and len(c.args) == 1 and
+                            dotted(c.args[0]) == params[0] for c in effects):
+    return
+  v = FnView.of(chk.repo, fin)
+  conv = None
+  for n, r in v.returns():
+    if r.value is None:
+      continue
+    e = v.expand(r.value, 3)
+    for x in ast.walk(e):
+      if isinstance(x, (ast.ListComp, ast.GeneratorExp, ast.SetComp)):
+        tnames = {t_.id for g in x.generators for t_ in ast.walk(g.target) if isinstance(t_, ast.Name)}
+        if not (isinstance(x.elt, ast.Name) and x.elt.id in tnames):
+          conv = x.elt
+      elif isinstance(x, ast.Call) and call_tail(x) == 'map':
+        conv = x
+  chk.ob(rid, conv is None, None,
+         'aggregate %s returns the collected values themselves' % sqlname,
+         'finalize converts each collected value (`%s`): a string that happens to read '
+         'as a number, a boolean or JSON comes back as another value, so the result no '
+         'longer contains its own inputs' % (norm(conv, 50) if conv is not None else ''),
+         fi=fin, node=conv)
+
+
+def reserved_prefix(chk, rid):
+  """Consistently renaming a variable leaves the result unchanged only if no
+  user-chosen name is treated specially.  The rule compiler treats EVERY name
+  with a certain prefix as one of its own auxiliary variables
+  (`startswith(<prefix>)` in rule_translate); so the parser must refuse every
+  user variable with that prefix - the same `startswith` test, nothing
+  narrower."""
+  repo = chk.repo
+  rt = repo.by_name('rule_translate')
+  prefixes = set()
+  for fi in rt.funcs.values():
+    for c in walk_local(fi.node):
+      if isinstance(c, ast.Call) and call_tail(c) == 'startswith' and c.args and \
+          const_str(c.args[0]) and 'var' in norm(c.func.value).lower() + ' v u_left':
+        prefixes.add(const_str(c.args[0]))
+  alloc = FnView(repo, 'rule_translate.NamesAllocator.AllocateVar')
+  made = {const_str(x.left).split('%')[0] for x in walk_local(alloc.fi.node)
+          if isinstance(x, ast.BinOp) and isinstance(x.op, ast.Mod) and const_str(x.left)}
+  prefixes = {p_ for p_ in prefixes if any(m_.startswith(p_) for m_ in made)}
+  if not prefixes:
+    raise AnalysisError('rule_translate: prefix of compiler-internal variables not recognised')
+  pv = FnView(repo, 'parse.ParseVariable')
+  for pref in sorted(prefixes):
+    ok = False
+    for n, r in pv.raises():
+      for e, val in pv.guards(n):
+        if val and isinstance(e, ast.Call) and call_tail(e) == 'startswith' and e.args and \
+            const_str(e.args[0]) is not None and pref.startswith(const_str(e.args[0])) and \
+            const_str(e.args[0]):
+          # the test stands alone: no other fact is needed for the raise
+          hdr = [h for h, pol in pv.cfg.header_of(n)]
+          tests = [pv.cfg.stmt[h].test for h in hdr if hasattr(pv.cfg.stmt[h], 'test')]
+          ok = any(t_ is e for t_ in tests)
+    chk.ob(rid, ok, None,
+           "every user variable starting with '%s' is refused by the parser" % pref,
+           "the rule compiler treats every name starting with '%s' as an auxiliary variable "
+           "of its own, but ParseVariable does not refuse all such names: renaming a "
+           "variable to one of them changes how it is eliminated / reported and thereby "
+           "the rows" % pref, fi=pv.fi)
